@@ -246,3 +246,7 @@ B("c12-binpack-norm-axis", "C12", "C12.R2", (P + "bin_pack/env.py", "BinPack._no
 B("c12-binpack-mask-selection", "C12", "C12.R2", (P + "bin_pack/env.py", "BinPack._get_set_of_largest_ems", "expr", "ems_mask[obs_ems_indexes]", "ems_mask[:self.obs_num_ems]"))
 B("c12-binpack-ascending", "C12", "C12.R2", (P + "bin_pack/env.py", "BinPack._get_set_of_largest_ems", "expr", "jnp.argsort(-ems_volumes)", "jnp.argsort(ems_volumes)"))
 B("c12-tetris-old-piece", "C12", "C12.R2", (P + "tetris/env.py", "Tetris.step", "kwarg", "tetromino", "new_tetromino", "tetromino"))
+B("c05-graph-reward-priority", "C05", "C05.R4", (L + "graph_coloring/env.py", "GraphColoring.step", "replace_stmt", "reward = jnp.where(invalid_action_taken", "reward = jnp.select([all_nodes_colored, invalid_action_taken], [-num_unique_colors, -self.num_nodes], default=0.0)"))
+B("c09-lbf-eaten-blocks", "C09", "C09.R3", (R + "lbf/utils.py", "simulate_agent_movement", "expr", "jnp.all(new_position == food_items.position, axis=1) & ~food_items.eaten", "jnp.all(new_position == food_items.position, axis=1)"))
+B("c12-lbf-grid-eaten-food", "C12", "C12.R2", (R + "lbf/observer.py", "GridObserver.make_agents_view", "expr", "food.level * ~food.eaten", "food.level"))
+B("c12-binpack-rank-unmasked", "C12", "C12.R2", (P + "bin_pack/env.py", "BinPack._get_set_of_largest_ems", "expr", "ems.volume() * ems_mask", "ems.volume()"))
